@@ -508,6 +508,32 @@ func init() {
 			}
 			emit(b)
 		}
+		// foreign surroundings: a valid text preceded / followed / interrupted (at a blank) by ONE byte that is not JSON white
+		// space (all 252 of them) or by a multi-byte sequence an editor, a transport or a Unicode-aware trim could treat as
+		// blank (byte order marks, NBSP, NEL, line / paragraph separators, zero-width and ideographic spaces, VT, FF, NUL):
+		// the property admits only space, tab, CR and LF around the value
+		{
+			odd := []string{"\xef\xbb\xbf", "\xfe\xff", "\xff\xfe", "\xff\xfe\x00\x00", "\x00\x00\xfe\xff", "\xc2\xa0", "\xc2\x85", "\xe2\x80\xa8", "\xe2\x80\xa9",
+				"\xe2\x80\x8b", "\xe3\x80\x80", "\xe1\x9a\x80", "\xe2\x81\xa0", "\x0b", "\x0c", "\x00", "\x1a", "\x7f", "\\n", "\\t", "//", "/**/", "#"}
+			for c := 0; c < 256; c++ {
+				if c != ' ' && c != '\t' && c != '\r' && c != '\n' {
+					odd = append(odd, string([]byte{byte(c)}))
+				}
+			}
+			hosts := []string{"1", "\"a\"", "[1, 2]", "{\"k\": null}", " true ", "\n[ ]\n", "{ \"a\" : [ 1 , { } ] }"}
+			for _, h := range hosts {
+				for _, o := range odd {
+					emit([]byte(o + h))
+					emit([]byte(h + o))
+					emit([]byte(o + " " + h))
+					emit([]byte(h + "\n" + o))
+					if k := strings.IndexAny(h, " \n"); k >= 0 {
+						emit([]byte(h[:k] + o + h[k:]))
+					}
+					rep.Stat("foreign_surroundings")
+				}
+			}
+		}
 		// valid texts + property-level checks
 		for i := vh.Pick(6000, 120000); i > 0; i-- {
 			genBudget = 10 + r.Intn(150)
